@@ -102,6 +102,20 @@ theorem select_tree_prefers_lower_cost (l r : Cand) (hc : l.errorCost ≠ r.erro
   · have : l.errorCost < r.errorCost := by omega
     simp [h, this]
 
+/-- `glr_yield`: for cells with several actions the model follows every action (`parseAll`); each
+accepting run yields a tree whose leaves are exactly the token string — in particular the tree
+`selectBest` keeps (`selectBest_mem`). -/
+theorem glr_yield (tbl : Table) (toks : List Nat) (t : PTree) (h : t ∈ parseAll tbl toks) :
+    t.leaves = toks ++ [0] := by
+  unfold parseAll at h
+  simpa [stackLeaves] using runAll_yield tbl _ _ t h
+
+/-- `glr_select_max`: the tree kept among all accepting runs is one of them and no other accepting
+run has a greater dynamic precedence ("the one with the greater value is kept"). -/
+theorem glr_select_max (tbl : Table) (toks : List Nat) (t : PTree) (h : selectBest (parseAll tbl toks) = some t) :
+    t ∈ parseAll tbl toks ∧ ∀ u, u ∈ parseAll tbl toks → u.dynPrec ≤ t.dynPrec :=
+  ⟨selectBest_mem _ t h, selectBest_max _ t h⟩
+
 /-- `dyn_sound`: every (string, total) pair of the dynamic-precedence oracle comes from a derivation
 of the start rule whose `PREC_DYNAMIC` values sum to that total — so the `best` value the judge
 compares the kept tree against is the value of an actual competing derivation. -/
